@@ -20,7 +20,7 @@ CHECKS["C16"] = dict(
     ],
     thorough=[
         R("h_avl", "part=shapes height=5", env=False),
-        R("h_avl", "part=closure universe=13", env=False),
+        R("h_avl", "part=closure universe=14", env=False),
         R("h_avl", "part=fib height=7", env=False),
     ],
     rule="every height-balanced shape of height<=5 (and every minimal-node shape to height 6/7) x every insertion gap, "
@@ -46,7 +46,7 @@ CHECKS["C05"] = dict(
     thorough=[
         R("h_theap", "part=closure n=11 keys=5 farkey=5", env=False, share=0.2),
         R("h_loop", "bound=3 seeds=16,17,7 nfd=1 ntm=3 ntk=0 nev=0 horizon=14 ops=leave,tmreg,tmunreg rules=timer-early,timer-twice,oversleep,timer-starved,%s" % ABN, share=0.3),
-        R("h_theap", "part=closure n=11 keys=5 handlers=6", env=False, share=0.4),
+        R("h_theap", "part=closure n=12 keys=5 handlers=6", env=False, share=0.4),
         R("h_theap", "part=closure n=16 keys=2 handlers=5", env=False),
         R("h_theap", "part=closure n=14 keys=3", env=False, share=0.3),
         R("h_theap", "part=boundary depth=3", env=False),
@@ -224,7 +224,7 @@ INO_ASSUME = ["real inotify of the host kernel on a tmpfs scratch directory; no 
               "bursts of <=2 operations before the first poll plus an optional later one; <=4 watches, <=2 instances"]
 CHECKS["C20"] = dict(
     quick=[R("h_inotify", "bound=1")],
-    thorough=[R("h_inotify", "bound=2")],
+    thorough=[R("h_inotify", "bound=2", share=0.5), R("h_inotify", "bound=3")],
     rule="5 watch-set presets (directory / file / second directory / one-shot / two instances) x 7x7 bursts of filesystem operations "
          "(create, write, rename within, rename across, unlink, rmdir of a watched directory) x optional second round, all crossed "
          "(cost-free configuration choices); at every delivered event the handler's action is a choice among {nothing, unregister this "
@@ -289,7 +289,7 @@ CHECKS["C14"] = dict(
 
 CHECKS["C09"] = dict(
     quick=[R("h_raw", "bound=3", sched=True), R("h_loops_mt", "bound=2 cycles=2", sched=True)],
-    thorough=[R("h_raw", "bound=6 oposts=2", sched=True), R("h_loops_mt", "bound=4 cycles=3", sched=True)],
+    thorough=[R("h_raw", "bound=9 oposts=2", sched=True, share=0.6), R("h_loops_mt", "bound=4 cycles=3", sched=True)],
     rule="3 backings (eventfd2 / old eventfd / pipe shrunk to 4096 B) x 4 poll methods x 10 poster programs (1 post, 2 posts, burst of 5000 "
          "in one step, post from a signal handler running in the owner thread, post from a forked child, and pairs of these) x owner posting "
          "from a timer and from inside the handler x every schedule within the bound",
@@ -323,7 +323,7 @@ CHECKS["C13"] = dict(
     quick=[R("h_work", "bound=1", sched=True),
            R("h_work", "bound=2 methods=2 maxthreads=1,2 progs=1,2,5 puts=1-4", sched=True),
            R("h_thread", "bound=3", sched=True)],
-    thorough=[R("h_work", "bound=2", sched=True), R("h_thread", "bound=6", sched=True)],
+    thorough=[R("h_work", "bound=2", sched=True, share=0.7), R("h_thread", "bound=8", sched=True)],
     rule=WORK_RULE,
     explanation="after the release: items already submitted complete, every worker calls thread_stop once after thread_start, every created "
                 "thread finishes and is joined by the library, iv_main returns only then and does return; the pool struct is poisoned and "
